@@ -27,11 +27,13 @@ namespace c01
         if(noff == 0) continue; // not constructible: SparseMatrixBanded(rows, cols, val, offsets) needs allocated arrays
         if(!only_counts(noff)) continue;
         for(int pad = 0; pad < 2; ++pad)         // content of the padding entries of val (positions outside of the matrix)
-          for(int alphabet = 0; alphabet < 2; ++alphabet)
+          for(const Variant& var : variants(nd <= 7))
             for(const ApplyCase& op0 : ops)
             {
               if(!c.want()) continue;
-              ApplyCase op = op0; op.alphabet = alphabet;
+              set_extreme_exp<DT>();
+              const int alphabet = var.alphabet;
+              ApplyCase op = op0; op.alphabet = alphabet; op.scenario = var.scenario;
               DenseRef D(m, n);
               std::vector<int> offs; for(int o = 0; o < nd; ++o) if((sub >> o) & 1u) offs.push_back(o);
               c.desc([&]{ std::string s = std::string("banded<") + tps + "> " + cfg + " " + std::to_string(m) + "x" + std::to_string(n) + " offsets={";
@@ -49,17 +51,23 @@ namespace c01
                   val.elements()[k * m + row] = v;
                 }
               }
-              M A(Index(m), Index(n), val, off);
-              bool same = (A.rows() == Index(m) && A.columns() == Index(n) && A.used_elements() == Index(D.nnz()) && A.num_of_offsets() == Index(noff));
-              for(int i = 0; i < m && same; ++i) for(int j = 0; j < n; ++j) if(!(A(Index(i), Index(j)) == DT(D.at(i, j)))) same = false;
-              c.check(same, "banded.operator() != generator", "container does not represent the generated matrix");
+              M A0(Index(m), Index(n), val, off);
+              const int dk = derive_kind(var.scenario);
+              M A = dk ? derive_matrix<M, SparseMatrixBanded<DT, typename OtherIndex<IT>::type>>(A0, dk) : A0.clone(CloneMode::Shallow);
+              if(dk) c.count("derived_object_cases");
+              auto tie = [&]{
+                bool same = (A.rows() == Index(m) && A.columns() == Index(n) && A.used_elements() == Index(D.nnz()) && A.num_of_offsets() == Index(noff));
+                for(int i = 0; i < m && same; ++i) for(int j = 0; j < n; ++j) if(!(A(Index(i), Index(j)) == DT(D.at(i, j)))) same = false;
+                c.check(same, "banded.operator() != generator", "container does not represent the generated matrix"); };
+              if(var.scenario != S_BASE) tie();
               V r{Index(m)}, y{Index(m)}, x{Index(n)};
               const std::string kind = std::string("banded") + cfg + (noff == 0 ? "[no offsets]" : "");
               check_apply(c, kind, D, op, r, y, x,
                 [&](int mode, V& rr, const V& xx, const V& yy, DT al) { if(mode == 0) A.apply(rr, xx); else A.apply(rr, xx, yy, al); },
-                [&]{ return hash_of(A); });
+                [&]{ verif::Hash h; hash_container(A0, h); hash_container(A, h); return h.get(); });
+              tie();
               const bool early = (noff == 0) || (op.mode && fabsl(scalars[op.alpha].v) < 1e-10L);
-              if(!early) c.nontrivial(verif::Hash().str("banded").str(cfg).str(tps).pod(m).pod(n).pod(sub).pod(pad).pod(op.mode).pod(op.alpha).pod(alphabet).get());
+              if(!early) c.nontrivial(verif::Hash().str("banded").str(cfg).str(tps).pod(m).pod(n).pod(sub).pod(pad).pod(op.mode).pod(op.alpha).pod(var).get());
               c.outcome(std::string("banded") + cfg + "/" + op.name() + (early ? " early-out" : ""));
               c.excluded("banded apply_transposed (generic kernel = XABORTM not implemented)");
               c.count("applies");
